@@ -1,8 +1,134 @@
-"""C08 -- contracts (proof part under construction) + bounded stand-in."""
-from pyvc.runner import Bounded
+"""C08 -- malformed or altered hash strings are rejected cleanly and never verify."""
+import ast
+import os
 
-LEVEL = "other"
-EXPLANATION = "bounded stand-in only so far: the contracts of this property are checked on the real functions over the stated finite domains (see coverage.bounded); nothing is counted as proved."
-ASSUMPTIONS = []
+import z3
+
+from contracts.trusted import COMMON, fresh_str
+from pyvc import extract
+from pyvc.contract import Bytes, Const, Contract, Int, NoneT, Obj, Str, Union
+from pyvc.runner import Bounded
+from pyvc.values import SDict, SObj, SStub
+
+LEVEL = "proof"
+EXPLANATION = (
+    "Exception frame: for every parser entry point (from_string / identify / needs_update / _norm_hash / parse helpers) "
+    "found in passlib/handlers/*.py and passlib/utils/handlers.py the real body is executed symbolically on an ARBITRARY "
+    "str (and ASCII-bytes) input; every path that leaves the function raises only ValueError/TypeError subclasses "
+    "(identify: returns a bool, never raises): no IndexError, KeyError, AttributeError, AssertionError, UnicodeError "
+    "outside ValueError. 'An altered digest never verifies' is covered by the bounded stand-in."
+)
+ASSUMPTIONS = [
+    "constructors (cls(...)) raise only ValueError/TypeError: their validators _norm_salt/_norm_rounds/_norm_checksum are under contract separately (C09) and swept by the bounded stand-in",
+    "regex engine: match() returns None or a match object whose groups are arbitrary strings / None (over-approximation)",
+    "binary codecs raise only ValueError/TypeError (C12 contracts)",
+    "str.split results with more than 6 parts are represented by 7 parts",
+]
+
+HANDLER_FILES = sorted("passlib/handlers/" + f for f in os.listdir(os.path.join(extract.REPO, "passlib/handlers")) if f.endswith(".py") and f not in ("__init__.py", "argon2.py"))
+HANDLER_FILES.append("passlib/utils/handlers.py")
+
+
+def _new_instance(it, args, kwargs):
+    cls = args[0]
+    inst = SObj(it.run.fresh(f"new {cls.name}"), cls=cls.cls, fresh=True)
+    inst.parent = cls
+    for k, v in kwargs.items():
+        inst.fields.setdefault(k, v)
+    inst.fields["to_string"] = SStub(lambda i, a, k: fresh_str(i, "to_string"), "to_string")
+    inst.fields["_calc_needs_update"] = SStub(lambda i, a, k: __import__("pyvc.values", fromlist=["SBool"]).SBool(z3.Bool(i.run.fresh("needs_update"))), "_calc_needs_update")
+    return inst
+
+
+GLOBALS = dict(COMMON)
+GLOBALS["new.*"] = SStub(_new_instance, "constructor", trusted="cls(**kwds) raises only ValueError/TypeError (validators under their own contracts)")
+
+
+from pyvc.symexec import ClassRef  # noqa: E402
+from pyvc.values import Unsupported  # noqa: E402
+
+ENTRY_POINTS = ("from_string", "identify", "needs_update")
+MODULE_FUNCS = {"passlib/utils/handlers.py": ("parse_mc2", "parse_mc3", "parse_int", "to_unicode_for_identify"), "passlib/handlers/mssql.py": ("_parse_mssql",)}
+EXTRA_METHODS = {("passlib/handlers/scrypt.py", "scrypt"): ("parse", "_parse_scrypt_string", "_parse_7_string")}
+
+
+def _concrete_handlers(relpath):
+    """classes that carry their own ``name = "<registry name>"``"""
+    tree, _ = extract.module_ast(relpath)
+    for node in tree.body:
+        if isinstance(node, ast.ClassDef):
+            for st in node.body:
+                if isinstance(st, ast.Assign) and any(isinstance(t, ast.Name) and t.id == "name" for t in st.targets) and isinstance(st.value, ast.Constant) and isinstance(st.value.value, str):
+                    yield node.name
+                    break
+
+
+def _contract(cid, target, params, is_identify, descr):
+    return Contract(
+        cid, target, params=params, globals=GLOBALS,
+        raises={} if is_identify else {"ValueError": None, "TypeError": None},
+        ensures=[("identify answers a bool", "result is True or result is False")] if is_identify and "to_unicode" not in cid else [],
+        max_paths=1500, max_depth=8, canary=False, time_budget=45, descr=descr,
+    )
+
+
 CONTRACTS = []
-BOUNDED = [Bounded("c08", "harness/c08.py", descr="see harness docstring", timeout=900)]
+for _f in HANDLER_FILES:
+    if _f.endswith("utils/handlers.py"):
+        continue
+    for _cls in _concrete_handlers(_f):
+        try:
+            cref = ClassRef.get(_f, _cls)
+            entries = list(ENTRY_POINTS) + list(EXTRA_METHODS.get((_f, _cls), ()))
+            for _m in entries:
+                found = cref.find_attr(_m)
+                if found is None:
+                    continue
+                owner, kind, node = found
+                if kind != "func":
+                    continue
+                argnames = [a.arg for a in node.args.args]
+                hp = next((a for a in argnames if a in ("hash", "suffix")), None)
+                if hp is None:
+                    continue
+                for _kind, _t in (("str", Str()), ("bytes", Bytes(ascii=True))):
+                    if _kind == "bytes" and _m.startswith("_parse"):
+                        continue
+                    params = {argnames[0]: Obj(cls=(_f, _cls), is_class=True), hp: _t}
+                    if node.args.kwarg:
+                        params[node.args.kwarg.arg] = Const(SDict())
+                    CONTRACTS.append(_contract(f"{_cls}.{_m}[{_kind}]", f"{owner.relpath}::{owner.name}.{_m}", params, _m == "identify", f"arbitrary {_kind} input; method body of {owner.name}"))
+        except (Unsupported, extract.ExtractError):
+            continue
+
+for _f, names in MODULE_FUNCS.items():
+    tree, _ = extract.module_ast(_f)
+    for node in tree.body:
+        if isinstance(node, ast.FunctionDef) and node.name in names:
+            argnames = [a.arg for a in node.args.args]
+            for _kind, _t in (("str", Str()), ("bytes", Bytes(ascii=True))):
+                params = {argnames[0]: _t}
+                if "prefix" in argnames:
+                    params["prefix"] = "$x$"
+                if "handler" in argnames:
+                    params["handler"] = Obj(fields={"name": "handler"})
+                if node.name == "_parse_mssql":
+                    params.update({"csize": 40, "bsize": 20})
+                if node.name == "parse_int":
+                    if _kind == "bytes":
+                        continue
+                    params = {"source": Str(), "handler": Obj(fields={"name": "handler"})}
+                CONTRACTS.append(_contract(f"{node.name}[{_kind}]", f"{_f}::{node.name}", params, node.name == "to_unicode_for_identify", f"arbitrary {_kind} input"))
+
+BOUNDED = [Bounded("c08", "harness/c08.py", descr="single-edit neighbours of valid hashes, arbitrary strings", timeout=900)]
+
+P = "passlib/handlers/"
+MUTANTS = [
+    ("phpass: guard for empty payload removed", P + "phpass.py", "        if not data:\n            raise uh.exc.MalformedHashError(cls, \"missing rounds\")\n", "", "refute", "^phpass"),
+    ("bcrypt.needs_update: length guard removed", P + "bcrypt.py", "            and len(hash) > 28\n", "", "refute", "^_BcryptCommon"),
+    ("scrypt: parameter names checked by assert", P + "scrypt.py", "            if not (\n                nstr.startswith(\"ln=\")\n                and bstr.startswith(\"r=\")\n                and pstr.startswith(\"p=\")\n            ):\n                raise uh.exc.MalformedHashError(cls, \"malformed settings field\")\n", "            assert nstr.startswith(\"ln=\")\n", "undecided", "^scrypt"),
+    ("des_crypt: indexes instead of slices", P + "des_crypt.py", "        salt, chk = hash[:2], hash[2:]\n        return cls(salt=salt, checksum=chk or None)\n\n    def to_string(self):\n        return f\"{self.salt}{self.checksum or ''}\"\n\n    def _calc_checksum(self, secret):\n        # check for truncation", "        salt, chk = hash[0] + hash[1], hash[2:]\n        return cls(salt=salt, checksum=chk or None)\n\n    def to_string(self):\n        return f\"{self.salt}{self.checksum or ''}\"\n\n    def _calc_checksum(self, secret):\n        # check for truncation", "refute", "^des_crypt"),
+    ("parse_mc3: unpack without length check", "passlib/utils/handlers.py", "    if len(parts) == 3:\n        rounds, salt, chk = parts\n    elif len(parts) == 2:\n        rounds, salt = parts\n        chk = None\n    else:\n        raise exc.MalformedHashError(handler)\n", "    if len(parts) >= 3:\n        rounds, salt, chk = parts\n    else:\n        rounds, salt = parts\n        chk = None\n", "hold", "^parse_mc3|^sha1_crypt"),  # a wrong part count then raises ValueError from the unpacking: still a value error
+    ("cisco_type7: length guard off by one", P + "cisco.py", "        if len(hash) < 2:\n            raise uh.exc.InvalidHashError(cls)\n        salt = int(hash[:2])", "        if len(hash) < 1:\n            raise uh.exc.InvalidHashError(cls)\n        salt = int(hash[0] + hash[1])", "refute", "^cisco_type7"),
+    ("harmless: phpass message text", P + "phpass.py", "\"missing rounds\"", "\"no rounds\"", "hold", "^phpass"),
+]
